@@ -31,8 +31,9 @@ def _mems_keys(node, dictname="mems"):
 
 def keys_by_target(fn, expected_targets):
     """[(target variable, [keys])] for every assignment in `fn` that reads `mems`, in source
-    order, merged per target. Raises NotRecognised when the local names are not the expected
-    ones (a rename is a refactor: baseline kept, correspondence decides)."""
+    order, merged per target. TOTAL: when the local names are not the expected ones the map that
+    IS there is returned (expected names first, the others after them in source order), so that
+    `shapeOk` / `cfg = kernelCfg` fail on the new value instead of being evaluated on a stale one."""
     stmts = []
     for n in ast.walk(fn):
         if isinstance(n, ast.Assign) and len(n.targets) == 1 and isinstance(n.targets[0], ast.Name):
@@ -51,55 +52,76 @@ def keys_by_target(fn, expected_targets):
                 break
         else:
             out.append((tgt, list(ks)))
-    if sorted(t for t, _ in out) != sorted(expected_targets):
-        raise NotRecognised("targets reading mems are %s" % [t for t, _ in out])
-    out.sort(key=lambda o: expected_targets.index(o[0]))
-    return out
+    if not out:
+        raise NotRecognised("no assignment reads `mems`")
+    known = [o for o in out if o[0] in expected_targets]
+    known.sort(key=lambda o: expected_targets.index(o[0]))
+    return known + [o for o in out if o[0] not in expected_targets]
 
 
 def lean_keymap(km):
     return E.lean_list(km, lambda o: E.lean_pair(E.lean_str(o[0]), E.lean_list(o[1], E.lean_bytes)))
 
 
-def parse_stmt(fn):
-    """`mems[fields[K]] = int(fields[V]) * F` → [K, V, F]"""
-    hits = []
-    for n in ast.walk(fn):
-        if isinstance(n, ast.Assign) and len(n.targets) == 1:
-            t = n.targets[0]
-            if isinstance(t, ast.Subscript) and E.dotted(t.value) == "mems" \
-                    and isinstance(t.slice, ast.Subscript) and E.dotted(t.slice.value) == "fields":
-                k = E.const(t.slice.slice)
-                v = n.value
-                if isinstance(v, ast.BinOp) and isinstance(v.op, ast.Mult):
-                    f = _const_product(v.right)
-                    call = v.left
-                    while isinstance(call, ast.BinOp) and isinstance(call.op, ast.Mult):
-                        f *= _const_product(call.right)
-                        call = call.left
-                elif isinstance(v, ast.Call):
-                    f, call = 1, v
-                else:
-                    raise NotRecognised("meminfo value expression: %s" % E.unparse(v))
-                if not (isinstance(call, ast.Call) and E.dotted(call.func) == "int" and len(call.args) == 1):
-                    raise NotRecognised("meminfo value is not int(...): %s" % E.unparse(v))
-                a = call.args[0]
-                if not (isinstance(a, ast.Subscript) and E.dotted(a.value) == "fields"):
-                    raise NotRecognised("meminfo value is not int(fields[i])")
-                hits.append([k, E.const(a.slice), f])
-    if len(hits) != 1:
-        raise NotRecognised("meminfo parse statement found %d times" % len(hits))
-    if not all(isinstance(x, int) and x >= 0 for x in hits[0]):
-        raise NotRecognised("meminfo parse statement indexes: %s" % hits[0])
-    return hits[0]
-
-
-def _const_product(n):
-    if isinstance(n, ast.Constant) and isinstance(n.value, int):
-        return n.value
+def _flatten_product(n):
+    """factors of a `*` chain, left to right"""
     if isinstance(n, ast.BinOp) and isinstance(n.op, ast.Mult):
-        return _const_product(n.left) * _const_product(n.right)
-    raise NotRecognised("not a product of int constants: %s" % E.unparse(n))
+        return _flatten_product(n.left) + _flatten_product(n.right)
+    return [n]
+
+
+def _is_int_const(n):
+    return isinstance(n, ast.Constant) and isinstance(n.value, int) and not isinstance(n.value, bool)
+
+
+def scaled_int(v):
+    """`int(X) * a * b …` (any order) → (X, product of the integer constants, [source text of the
+    other factors]). TOTAL over products that contain exactly one `int(...)` call: a factor that is
+    not an integer constant (`PAGESIZE`, a conditional expression …) is REPORTED by its text."""
+    factors = _flatten_product(v)
+    calls = [f for f in factors if isinstance(f, ast.Call) and E.dotted(f.func) == "int" and len(f.args) == 1]
+    if len(calls) != 1:
+        raise NotRecognised("not int(...) times something: %s" % E.unparse(v))
+    const, other = 1, []
+    for f in factors:
+        if f is calls[0]:
+            continue
+        if _is_int_const(f) and f.value >= 0:
+            const *= f.value
+        else:
+            other.append(E.unparse(f))
+    return calls[0].args[0], const, other
+
+
+def _meminfo_loop(fn):
+    """the `for line in f:` loop that fills `mems`"""
+    for n in ast.walk(fn):
+        if isinstance(n, ast.For) and any(
+                isinstance(s, ast.Assign) and len(s.targets) == 1 and isinstance(s.targets[0], ast.Subscript)
+                and E.dotted(s.targets[0].value) == "mems" for s in n.body):
+            return n
+    raise NotRecognised("no loop assigning mems[...] found")
+
+
+def parse_stmt(fn):
+    """`mems[fields[K]] = int(fields[V]) * F` → [K, V, F]; F = 0 when the multiplier is not a
+    constant (the text of the loop is a fact of its own: vmLoopText / swLoopText)"""
+    loop = _meminfo_loop(fn)
+    hits = [s for s in loop.body if isinstance(s, ast.Assign) and len(s.targets) == 1
+            and isinstance(s.targets[0], ast.Subscript) and E.dotted(s.targets[0].value) == "mems"]
+    if len(hits) != 1:
+        raise NotRecognised("mems[...] assigned %d times in the loop" % len(hits))
+    t = hits[0].targets[0]
+    if not (isinstance(t.slice, ast.Subscript) and E.dotted(t.slice.value) == "fields"):
+        raise NotRecognised("key is not fields[i]: %s" % E.unparse(t))
+    k = E.const(t.slice.slice)
+    arg, const, other = scaled_int(hits[0].value)
+    if not (isinstance(arg, ast.Subscript) and E.dotted(arg.value) == "fields"):
+        raise NotRecognised("meminfo value is not int(fields[i])")
+    out = [k, E.const(arg.slice), 0 if other else const]
+    if not all(isinstance(x, int) and not isinstance(x, bool) and x >= 0 for x in out):
+        raise NotRecognised("meminfo parse statement indexes: %s" % out)
+    return out
 
 
 def _bodies(fn):
@@ -111,20 +133,20 @@ def _bodies(fn):
 
 
 def missing_map(fn):
-    """[(variable set to 0, name appended to missing_fields)] in source order"""
+    """[(variable set to 0, name appended to missing_fields)] in source order; "?" for the variable
+    when there is not exactly one `x = 0` beside the append (the new shape is reported, not skipped)"""
     out = []
     for body in _bodies(fn):
         for st in body:
             if isinstance(st, ast.Expr) and isinstance(st.value, ast.Call) \
                     and E.dotted(st.value.func) == "missing_fields.append" and len(st.value.args) == 1:
-                name = E.const(st.value.args[0])
+                a = st.value.args[0]
+                name = a.value if isinstance(a, ast.Constant) and isinstance(a.value, str) else "<%s>" % E.unparse(a)
                 zeroed = [s.targets[0].id for s in body
                           if isinstance(s, ast.Assign) and len(s.targets) == 1
                           and isinstance(s.targets[0], ast.Name)
-                          and isinstance(s.value, ast.Constant) and s.value.value == 0]
-                if len(zeroed) != 1:
-                    raise NotRecognised("missing_fields.append(%r) without a single `x = 0` beside it" % name)
-                out.append((_pos(st), zeroed[0], name))
+                          and _is_int_const(s.value) and s.value.value == 0]
+                out.append((_pos(st), zeroed[0] if len(zeroed) == 1 else "?", name))
     if not out:
         raise NotRecognised("no missing_fields.append found")
     return [(v, n) for _, v, n in sorted(out)]
@@ -140,14 +162,13 @@ def _assigns(body, target, value_src):
                and E.unparse(s.value) == value_src for s in body)
 
 
-def guard(fn, left, op, right, target, value_src, allow_absent=True):
-    """is there an `if <left> <op> <right>:` whose body assigns `target = value_src`?"""
+def guard(fn, left, op, right, target, value_src):
+    """is there an `if <left> <op> <right>:` whose body assigns `target = value_src`? TOTAL as long
+    as the variable exists: a guard that does something else counts as absent (the model then
+    runs without it and the correspondence produces the input on which that matters)."""
     for n in ast.walk(fn):
-        if isinstance(n, ast.If) and _is_cmp(n.test, left, op, right):
-            if _assigns(n.body, target, value_src):
-                return True
-            raise NotRecognised("guard `%s` does something else" % E.unparse(n.test))
-    # make sure the variable still exists, otherwise the shape is unknown
+        if isinstance(n, ast.If) and _is_cmp(n.test, left, op, right) and _assigns(n.body, target, value_src):
+            return True
     if not any(isinstance(n, ast.Name) and n.id == target for n in ast.walk(fn)):
         raise NotRecognised("variable %s not found" % target)
     return False
@@ -161,35 +182,48 @@ def round_digits(fn):
     for kw in c.keywords:
         if kw.arg == "round_":
             v = E.const(kw.value)
-            if isinstance(v, int) and v >= 0:
+            if isinstance(v, int) and not isinstance(v, bool) and v >= 0:
                 return v
+            raise NotRecognised("round_=%r" % (v,))
     if len(c.args) >= 3:
-        return E.const(c.args[2])
+        v = E.const(c.args[2])
+        if isinstance(v, int) and not isinstance(v, bool) and v >= 0:
+            return v
     raise NotRecognised("round_ argument of usage_percent not found")
 
 
-def startswith_prefixes(fn):
+def _startswith_ifs(fn):
+    """every `if line.startswith(b'..'):` / `elif …` in source order"""
     out = []
     for n in ast.walk(fn):
-        if isinstance(n, ast.Call) and E.dotted(n.func) == "line.startswith" and len(n.args) == 1:
-            v = E.const(n.args[0])
-            if isinstance(v, bytes):
-                out.append((_pos(n), v, n))
-    return [(v, n) for _, v, n in sorted(out, key=lambda t: t[0])]
+        if isinstance(n, ast.If) and isinstance(n.test, ast.Call) and E.dotted(n.test.func) == "line.startswith" \
+                and len(n.test.args) == 1:
+            out.append((_pos(n), n))
+    return [n for _, n in sorted(out, key=lambda t: t[0])]
 
 
-def low_fact(fn):
-    """(prefix, index) of `if line.startswith(b'low'): watermark_low += int(line.split()[1])`"""
-    for n in ast.walk(fn):
-        if isinstance(n, ast.If) and isinstance(n.test, ast.Call) and E.dotted(n.test.func) == "line.startswith":
-            prefix = E.const(n.test.args[0])
-            for s in n.body:
-                if isinstance(s, ast.AugAssign) and isinstance(s.op, ast.Add) \
-                        and isinstance(s.value, ast.Call) and E.dotted(s.value.func) == "int":
-                    a = s.value.args[0]
-                    if isinstance(a, ast.Subscript) and E.unparse(a.value) == "line.split()":
-                        return prefix, E.const(a.slice)
-    raise NotRecognised("zoneinfo `low` loop not recognised")
+def low_prefix(fn):
+    ifs = _startswith_ifs(fn)
+    if len(ifs) != 1:
+        raise NotRecognised("%d `line.startswith` tests in calculate_avail_vmem" % len(ifs))
+    v = E.const(ifs[0].test.args[0])
+    if not isinstance(v, bytes):
+        raise NotRecognised("prefix is not a bytes literal")
+    return v
+
+
+def low_index(fn):
+    """index I of `watermark_low += int(line.split()[I])` under the `low` test"""
+    ifs = _startswith_ifs(fn)
+    if len(ifs) != 1:
+        raise NotRecognised("%d `line.startswith` tests in calculate_avail_vmem" % len(ifs))
+    for s in ifs[0].body:
+        if isinstance(s, ast.AugAssign) and isinstance(s.op, ast.Add) \
+                and isinstance(s.value, ast.Call) and E.dotted(s.value.func) == "int" and len(s.value.args) == 1:
+            a = s.value.args[0]
+            if isinstance(a, ast.Subscript) and E.unparse(a.value) == "line.split()":
+                return E.const(a.slice)
+    raise NotRecognised("`watermark_low += int(line.split()[i])` not recognised")
 
 
 def wm_times_pagesize(fn):
@@ -200,38 +234,44 @@ def wm_times_pagesize(fn):
     return False
 
 
-def vmstat_fact(fn, var):
-    """(prefix, index, factor) of `if line.startswith(P): var = int(line.split(b' ')[I]) * F`"""
-    for n in ast.walk(fn):
-        if isinstance(n, ast.If) and isinstance(n.test, ast.Call) and E.dotted(n.test.func) == "line.startswith":
-            for s in n.body:
-                if isinstance(s, ast.Assign) and len(s.targets) == 1 and E.unparse(s.targets[0]) == var:
-                    v = s.value
-                    f = 1
-                    while isinstance(v, ast.BinOp) and isinstance(v.op, ast.Mult):
-                        f *= _const_product(v.right)
-                        v = v.left
-                    if not (isinstance(v, ast.Call) and E.dotted(v.func) == "int"):
-                        raise NotRecognised("%s is not int(...)*k" % var)
-                    a = v.args[0]
-                    if not (isinstance(a, ast.Subscript) and E.unparse(a.value) == "line.split(b' ')"):
-                        raise NotRecognised("%s does not come from line.split(b' ')[i]" % var)
-                    return E.const(n.test.args[0]), E.const(a.slice), f
+def vmstat_branch(fn, var):
+    """the branch `if line.startswith(P): var = int(<split>[I]) * F…` of the /proc/vmstat loop →
+    dict(prefix, split, idx, const, names); every item is extracted on its own (None when that
+    item alone is not recognised) so that one unusual piece does not hide the others"""
+    for n in _startswith_ifs(fn):
+        for s in n.body:
+            if isinstance(s, ast.Assign) and len(s.targets) == 1 and E.unparse(s.targets[0]) == var:
+                d = {"prefix": None, "split": None, "idx": None, "const": None, "names": None}
+                p = n.test.args[0]
+                if isinstance(p, ast.Constant) and isinstance(p.value, bytes):
+                    d["prefix"] = p.value
+                try:
+                    arg, const, other = scaled_int(s.value)
+                except NotRecognised:
+                    return d
+                d["const"], d["names"] = const, other
+                if isinstance(arg, ast.Subscript):
+                    d["split"] = E.unparse(arg.value)
+                    if _is_int_const(arg.slice) and arg.slice.value >= 0:
+                        d["idx"] = arg.slice.value
+                return d
     raise NotRecognised("vmstat branch for %s not recognised" % var)
 
 
-def call_args(fn, callee, expected):
-    """names of the local variables passed positionally to the record constructor"""
+def _need(v, what):
+    if v is None:
+        raise NotRecognised(what)
+    return v
+
+
+def call_args(fn, callee):
+    """source text of the arguments passed to the record constructor (TOTAL: keyword arguments
+    as `name=expr`, anything that is not a plain local name by its text)"""
     calls = [c for c in ast.walk(fn) if isinstance(c, ast.Call) and E.dotted(c.func).split(".")[-1] == callee]
     if len(calls) != 1:
         raise NotRecognised("%s(...) constructed %d times" % (callee, len(calls)))
     c = calls[0]
-    if c.keywords or not all(isinstance(a, ast.Name) for a in c.args):
-        raise NotRecognised("%s(...) arguments are not plain local names" % callee)
-    names = [a.id for a in c.args]
-    if sorted(names) != sorted(expected):
-        raise NotRecognised("%s(...) receives %s" % (callee, names))
-    return names
+    return [E.unparse(a) for a in c.args] + ["%s=%s" % (k.arg, E.unparse(k.value)) for k in c.keywords]
 
 
 def pct_scale(fn):
@@ -245,13 +285,139 @@ def pct_scale(fn):
             scale = n.right.value
     handlers = [h for h in ast.walk(fn) if isinstance(h, ast.ExceptHandler)
                 and h.type is not None and E.dotted(h.type) == "ZeroDivisionError"]
-    if scale is None or not isinstance(scale, int) or len(handlers) != 1:
+    if scale is None or not isinstance(scale, int) or isinstance(scale, bool) or scale < 0 or len(handlers) != 1:
         raise NotRecognised("usage_percent shape not recognised")
     ret = [s for s in handlers[0].body if isinstance(s, ast.Return)]
     if not ret or E.const(ret[0].value) != 0.0:
         raise NotRecognised("ZeroDivisionError handler does not return 0.0")
     return scale
 
+
+# ---------------------------------------------------------------- source-text facts
+# Statements the model transcribes but that no structured fact above describes (the arithmetic of
+# `used`, of the estimate, the arguments of usage_percent, `round()`, the `for … else` / `break`
+# of the vmstat loop, the warnings, the exception classes caught). They are pinned by their
+# normalised source text (`ast.unparse`: comments and layout do not count) through `textOk`
+# (Model/C08Gen.lean) → obligation `cfg_text_good`. An edit there therefore breaks an obligation
+# even when every generated input behaves the same (e.g. `int(avail)` → `round(avail)`).
+
+def _texts(nodes):
+    return [E.unparse(n) for n in nodes]
+
+
+def _assigned_name(s):
+    if isinstance(s, ast.Assign) and len(s.targets) == 1 and isinstance(s.targets[0], ast.Name):
+        return s.targets[0].id
+    if isinstance(s, ast.AugAssign) and isinstance(s.target, ast.Name):
+        return s.target.id
+    return None
+
+
+def loop_text(fn):
+    """body of the /proc/meminfo loop: `fields = line.split()`, `mems[fields[0]] = int(fields[1]) * 1024`"""
+    return _texts(_meminfo_loop(fn).body)
+
+
+def used_text(fn):
+    """the statements of the function body that compute `used` (assignment + the `if used …` guard)"""
+    out = [s for s in fn.body if _assigned_name(s) == "used"
+           or (isinstance(s, ast.If) and E.unparse(s.test).startswith("used "))]
+    if not out:
+        raise NotRecognised("no statement computing `used`")
+    return _texts(out)
+
+
+def aug_text(fn, var):
+    out = sorted(((_pos(n), n) for n in ast.walk(fn) if isinstance(n, ast.AugAssign) and _assigned_name(n) == var),
+                 key=lambda t: t[0])
+    return _texts([n for _, n in out])
+
+
+def avail_text(fn):
+    """the top-level statements that compute and clamp `avail`"""
+    def touches(s):
+        if isinstance(s, ast.Try):
+            return any(_assigned_name(x) == "avail" for x in ast.walk(s))
+        return isinstance(s, ast.If) and E.unparse(s.test).startswith("avail ")
+    out = [s for s in fn.body if touches(s) or _assigned_name(s) == "avail"]
+    if not out:
+        raise NotRecognised("no statement computing `avail`")
+    return _texts(out)
+
+
+def percent_text(fn):
+    out = sorted(((_pos(n), n) for n in ast.walk(fn) if isinstance(n, (ast.Assign, ast.Return, ast.Expr))
+                  and E.calls_in(n, "usage_percent")), key=lambda t: t[0])
+    if not out:
+        raise NotRecognised("usage_percent is not called")
+    return _texts([n for _, n in out])
+
+
+def warn_text(fn):
+    """every statement that builds or issues a warning, in source order: assignments to `msg`,
+    `warnings.warn(...)` calls, and the `if missing_fields:` test guarding them"""
+    out = []
+    for n in ast.walk(fn):
+        if _assigned_name(n) == "msg":
+            out.append((_pos(n), E.unparse(n)))
+        elif isinstance(n, ast.Expr) and isinstance(n.value, ast.Call) and E.dotted(n.value.func) == "warnings.warn":
+            out.append((_pos(n), E.unparse(n)))
+        elif isinstance(n, ast.If) and any(isinstance(x, ast.Call) and E.dotted(x.func) == "warnings.warn"
+                                          for x in ast.walk(n)):
+            out.append((_pos(n), "if %s:" % E.unparse(n.test)))
+    if not out:
+        raise NotRecognised("no warning is issued")
+    return [t for _, t in sorted(out)]
+
+
+def estimate_text(fn):
+    """calculate_avail_vmem() from `watermark_low = 0` to the end: the zoneinfo loop and the
+    arithmetic of the estimate (`min`, `/ 2`, `int()`)"""
+    for i, s in enumerate(fn.body):
+        if _assigned_name(s) == "watermark_low":
+            return _texts(fn.body[i:])
+    raise NotRecognised("`watermark_low = …` not found at the top level of calculate_avail_vmem")
+
+
+class _Factor(ast.NodeTransformer):
+    """`x = int(...) * <anything>` → `x = int(...) * FACTOR` (the factor is a fact of its own)"""
+    def visit_Assign(self, node):
+        try:
+            factors = _flatten_product(node.value)
+            calls = [f for f in factors if isinstance(f, ast.Call) and E.dotted(f.func) == "int"]
+            if len(calls) == 1 and len(factors) > 1 and factors[0] is calls[0]:
+                node = ast.Assign(targets=node.targets, lineno=node.lineno, col_offset=node.col_offset,
+                                  value=ast.BinOp(left=calls[0], op=ast.Mult(), right=ast.Name(id="FACTOR", ctx=ast.Load())))
+        except NotRecognised:
+            pass
+        return node
+
+
+def vmstat_loop_text(fn):
+    """the `for line in f: … else: …` loop over /proc/vmstat with the multipliers replaced by
+    FACTOR: pins `startswith`, `elif`, the `break` condition and the `for … else` branch"""
+    import copy
+    for n in ast.walk(fn):
+        if isinstance(n, ast.For) and _startswith_ifs(n):
+            m = _Factor().visit(copy.deepcopy(n))
+            ast.fix_missing_locations(m)
+            return E.unparse(m)
+    raise NotRecognised("no loop with line.startswith(...) found")
+
+
+def body_text(fn):
+    """statements of a function body without its docstring"""
+    body = fn.body
+    if body and isinstance(body[0], ast.Expr) and isinstance(body[0].value, ast.Constant) \
+            and isinstance(body[0].value.value, str):
+        body = body[1:]
+    return _texts(body)
+
+
+def handler_types(fn):
+    """exception classes of the `except` clauses, in source order ("" for a bare except)"""
+    hs = sorted(((_pos(h), h) for h in ast.walk(fn) if isinstance(h, ast.ExceptHandler)), key=lambda t: t[0])
+    return ["" if h.type is None else E.unparse(h.type) for _, h in hs]
 
 
 def sysinfo_c(snap):
@@ -287,9 +453,10 @@ def sysinfo_unpack(fn):
         if isinstance(n, ast.Assign) and len(n.targets) == 1 and isinstance(n.value, ast.Call) \
                 and E.dotted(n.value.func) == "cext.linux_sysinfo":
             t = n.targets[0]
-            if not (isinstance(t, ast.Tuple) and all(isinstance(x, ast.Name) for x in t.elts)):
-                raise NotRecognised("cext.linux_sysinfo() is not unpacked into plain names")
-            hits.append([x.id for x in t.elts])
+            if not isinstance(t, ast.Tuple):
+                hits.append([E.unparse(t)])          # not unpacked at all: reported as it is
+            else:
+                hits.append([E.unparse(x) for x in t.elts])
     if len(hits) != 1:
         raise NotRecognised("cext.linux_sysinfo() called %d times" % len(hits))
     return hits[0]
@@ -351,6 +518,9 @@ def facts(snap, F):
         return E.find_def(tree, name)
 
     ls, lb, ln = E.lean_str, E.lean_bool, E.lean_nat
+
+    def lsl(f):
+        return lambda: E.lean_list(f(), ls)
     F.try_add("vmKeys", "List (String × List (List Nat))",
               lambda: lean_keymap(keys_by_target(fn("virtual_memory"), VM_TARGETS)),
               "virtual_memory(): local variable ↦ the /proc/meminfo keys it is read from, in source order")
@@ -361,9 +531,9 @@ def facts(snap, F):
               lambda: lean_keymap(keys_by_target(fn("swap_memory"), SW_TARGETS)),
               "swap_memory(): local variable ↦ meminfo keys")
     F.try_add("vmParse", "List Nat", lambda: E.lean_list(parse_stmt(fn("virtual_memory")), ln),
-              "virtual_memory(): mems[fields[K]] = int(fields[V]) * F as [K, V, F]")
+              "virtual_memory(): mems[fields[K]] = int(fields[V]) * F as [K, V, F] (F = 0: not a constant)")
     F.try_add("swParse", "List Nat", lambda: E.lean_list(parse_stmt(fn("swap_memory")), ln),
-              "swap_memory(): mems[fields[K]] = int(fields[V]) * F as [K, V, F]")
+              "swap_memory(): mems[fields[K]] = int(fields[V]) * F as [K, V, F] (F = 0: not a constant)")
     F.try_add("missingMap", "List (String × String)",
               lambda: E.lean_list(missing_map(fn("virtual_memory")), lambda p: E.lean_pair(ls(p[0]), ls(p[1]))),
               "virtual_memory(): (variable set to 0, name appended to missing_fields), source order")
@@ -383,30 +553,64 @@ def facts(snap, F):
               "round_ digits passed to usage_percent by virtual_memory()")
     F.try_add("swRound", "Nat", lambda: ln(round_digits(fn("swap_memory"))),
               "round_ digits passed to usage_percent by swap_memory()")
-    F.try_add("lowPrefix", "List Nat", lambda: E.lean_bytes(low_fact(fn("calculate_avail_vmem"))[0]),
+    F.try_add("lowPrefix", "List Nat", lambda: E.lean_bytes(low_prefix(fn("calculate_avail_vmem"))),
               "prefix selecting the watermark lines of /proc/zoneinfo")
-    F.try_add("lowIdx", "Nat", lambda: ln(low_fact(fn("calculate_avail_vmem"))[1]),
+    F.try_add("lowIdx", "Nat", lambda: ln(low_index(fn("calculate_avail_vmem"))),
               "index into line.split() of the watermark value")
     F.try_add("wmTimesPagesize", "Bool", lambda: lb(wm_times_pagesize(fn("calculate_avail_vmem"))),
               "`watermark_low *= PAGESIZE` present")
-    F.try_add("sinPrefix", "List Nat", lambda: E.lean_bytes(vmstat_fact(fn("swap_memory"), "sin")[0]),
-              "prefix of the /proc/vmstat line feeding sin")
-    F.try_add("sinIdxFactor", "List Nat",
-              lambda: E.lean_list(list(vmstat_fact(fn("swap_memory"), "sin")[1:]), ln),
-              "[index into line.split(b' '), multiplier] for sin")
-    F.try_add("soutPrefix", "List Nat", lambda: E.lean_bytes(vmstat_fact(fn("swap_memory"), "sout")[0]),
-              "prefix of the /proc/vmstat line feeding sout")
-    F.try_add("soutIdxFactor", "List Nat",
-              lambda: E.lean_list(list(vmstat_fact(fn("swap_memory"), "sout")[1:]), ln),
-              "[index into line.split(b' '), multiplier] for sout")
+    for var in ("sin", "sout"):
+        def br(var=var):
+            return vmstat_branch(fn("swap_memory"), var)
+        F.try_add(var + "Prefix", "List Nat", lambda br=br: E.lean_bytes(_need(br()["prefix"], "prefix is not a bytes literal")),
+                  "prefix of the /proc/vmstat line feeding %s" % var)
+        F.try_add(var + "IdxFactor", "List Nat",
+                  lambda br=br: E.lean_list([_need(br()["idx"], "index not a constant"), _need(br()["const"], "not int(...) * k")], ln),
+                  "[index into the split line, product of the CONSTANT multipliers] for %s" % var)
+        F.try_add(var + "FactorNames", "List String",
+                  lambda br=br: E.lean_list(_need(br()["names"], "not int(...) * k"), ls),
+                  "the non-constant multipliers of %s by their source text ([] today; [\"PAGESIZE\"] once pages are "
+                  "scaled by the real page size)" % var)
+        F.try_add(var + "SplitExpr", "String", lambda br=br: ls(_need(br()["split"], "not a subscript")),
+                  "the expression whose [index] is read for %s (`line.split(b' ')`: split on single blanks)" % var)
     F.try_add("pctScale", "Nat", lambda: ln(pct_scale(E.find_def(com, "usage_percent"))),
               "usage_percent: (float(used) / total) * SCALE, ZeroDivisionError → 0.0")
-    F.try_add("svmemArgs", "List String",
-              lambda: E.lean_list(call_args(fn("virtual_memory"), "svmem", SVMEM_ARGS), ls),
+    F.try_add("svmemArgs", "List String", lsl(lambda: call_args(fn("virtual_memory"), "svmem")),
               "local variables passed positionally to svmem(...)")
-    F.try_add("sswapArgs", "List String",
-              lambda: E.lean_list(call_args(fn("swap_memory"), "sswap", SSWAP_ARGS), ls),
+    F.try_add("sswapArgs", "List String", lsl(lambda: call_args(fn("swap_memory"), "sswap")),
               "local variables passed positionally to sswap(...)")
+
+    # source-text facts (→ textOk → cfg_text_good)
+    F.try_add("vmLoopText", "List String", lsl(lambda: loop_text(fn("virtual_memory"))),
+              "virtual_memory(): body of the /proc/meminfo loop")
+    F.try_add("swLoopText", "List String", lsl(lambda: loop_text(fn("swap_memory"))),
+              "swap_memory(): body of the /proc/meminfo loop")
+    F.try_add("usedText", "List String", lsl(lambda: used_text(fn("virtual_memory"))),
+              "virtual_memory(): the statements computing `used`")
+    F.try_add("cachedAugText", "List String", lsl(lambda: aug_text(fn("virtual_memory"), "cached")),
+              "virtual_memory(): augmented assignments to `cached`")
+    F.try_add("availText", "List String", lsl(lambda: avail_text(fn("virtual_memory"))),
+              "virtual_memory(): the statements computing and clamping `avail`")
+    F.try_add("vmPercentText", "List String", lsl(lambda: percent_text(fn("virtual_memory"))),
+              "virtual_memory(): the call of usage_percent")
+    F.try_add("vmWarnText", "List String", lsl(lambda: warn_text(fn("virtual_memory"))),
+              "virtual_memory(): the statements building and issuing the warning")
+    F.try_add("estimateText", "List String", lsl(lambda: estimate_text(fn("calculate_avail_vmem"))),
+              "calculate_avail_vmem(): zoneinfo loop and the arithmetic of the estimate")
+    F.try_add("swUsedText", "List String", lsl(lambda: used_text(fn("swap_memory"))),
+              "swap_memory(): the statements computing `used`")
+    F.try_add("swPercentText", "List String", lsl(lambda: percent_text(fn("swap_memory"))),
+              "swap_memory(): the call of usage_percent")
+    F.try_add("swWarnText", "List String", lsl(lambda: warn_text(fn("swap_memory"))),
+              "swap_memory(): the statements building and issuing the two warnings")
+    F.try_add("vmstatLoopText", "String", lambda: ls(vmstat_loop_text(fn("swap_memory"))),
+              "swap_memory(): the /proc/vmstat loop, multipliers replaced by FACTOR")
+    F.try_add("usagePercentText", "List String", lsl(lambda: body_text(E.find_def(com, "usage_percent"))),
+              "_common.usage_percent(): its body")
+    F.try_add("handlerTypes", "List (String × List String)",
+              lambda: E.lean_list([(n, handler_types(fn(n))) for n in ("calculate_avail_vmem", "virtual_memory", "swap_memory")],
+                                  lambda p: E.lean_pair(ls(p[0]), E.lean_list(p[1], ls))),
+              "exception classes caught, per function, in source order")
 
     F.try_add("sysinfoCMembers", "List String", lambda: E.lean_list(sysinfo_c(snap)[1], ls),
               "arch/linux/mem.c: members of `struct sysinfo` passed to Py_BuildValue, in order")
